@@ -17,6 +17,7 @@ EXPLANATION = (
     "R11.4 also requires that TrackStore::add puts a track into the shard only when no error exit is reachable afterwards; R11.5 who-may-write rows for Track.{attributes, observations, merge_history}."
     " R11.4 also requires that the worker's Merge arm hands Track::merge the class list and the history flag exactly as the caller sent them (or the classes of the source when the list is empty)."
     ' (R11.6) who-may-notify: notifications come from Track::new / add_observation / merge only; (R11.7) Track::merge decides presence of a class in the source by a plain lookup in its observation map; (R11.8) the shard-membership owners of C09 (a merge that takes the destination out of its shard is reported).')
+EXPLANATION += ' R11.3 also requires that the merged history is not extended in place before it is stored (except by the two histories themselves).'
 NOT_DECIDED = ["faithfulness of the user's Clone impls (assumed)", "interior mutability inside user attribute types"]
 ASSUMPTIONS = ["Clone of TA / M / observations is a faithful snapshot", "panics are out of scope",
                "rustc nightly MIR construction"]
@@ -187,6 +188,25 @@ def history_rule(ctx, body, R):
                     if 'take' in {c.name.rsplit('::', 1)[-1] for c in alt.walk() if c.kind == 'call' and
                                   'iter' in c.name.lower()}:
                         alien.append('Iterator::take')
+                    # ... nor extended in place before it is stored (`let mut h = a.chain(b).collect(); h.push(x)`): entries
+                    # from neither history
+                    from lib import backward_locals
+                    flow = backward_locals(body, [('assign', i, si, s)])
+                    for c_ in body.find_calls('push', 'extend', 'extend_from_slice', 'append', 'insert', 'truncate', 'clear',
+                                              'retain', 'dedup', 'remove', 'pop', 'sort', 'reverse', 'drain', 'resize',
+                                              'swap_remove', 'dedup_by_key', 'sort_unstable', 'rotate_left', 'rotate_right'):
+                        if not c_.args or c_.args[0].get('k') not in ('copy', 'move') or 'Vec<u64>' not in str(
+                                body.locals[c_.args[0]['pl']['l']]).replace('std::vec::', ''):
+                            continue
+                        for d_ in body.defs().get(c_.args[0]['pl']['l'], []):
+                            if d_[0] == 'assign' and d_[3]['rv'].get('k') == 'ref' and d_[3]['rv']['pl']['l'] in flow and \
+                                    not d_[3]['rv']['pl']['p']:
+                                a1_ = eb.arg(c_, 1) if len(c_.args) > 1 else None
+                                hist_only = a1_ is not None and c_.name in ('extend', 'extend_from_slice', 'append') and \
+                                    a1_.places() and all(p_.root in (('param', 1), ('param', 2)) and
+                                                         p_.fields[:1] == ('merge_history',) for p_ in a1_.places())
+                                if not hist_only:
+                                    alien.append('%s (in place)' % c_.name)
                     ctx.check(not alien, R, body, inst + ':verbatim',
                               'histories are concatenated verbatim',
                               'the merge history is passed through %s before it is stored: entries can be dropped, '
